@@ -93,11 +93,13 @@ pub broadcast proof fn lemma_push_contains<T>(s: Seq<T>, x: T, y: T)
     if s.contains(y) { let i = choose |i: int| 0 <= i < s.len() && s[i] == y; assert(s.push(x)[i] == y); }
     if x == y { assert(s.push(x)[s.len() as int] == y); }
 }
-/// one element of a delta applied to "is (u, c) listed": publish adds its entry, update replaces every entry under its URI by
-/// its own, withdraw removes every entry under its URI; entries under other URIs are untouched
+/// one element of a successful delta applied to "is (u, c) listed", read off the STATEMENT (the list equals what the publication
+/// server holds after the exchange): after a publish or an update the server holds exactly one object under that URI, the new one
+/// -- also when the list still had an entry there that the server had lost (publisher removed and added again) --, after a withdraw
+/// none; entries under other URIs are untouched
 pub open spec fn step(was: bool, e: PublishDeltaElement, u: uri::Rsync, c: Base64) -> bool {
     match e {
-        PublishDeltaElement::Publish(p) => was || (u == pub_uri(p) && c == pub_content(p)),
+        PublishDeltaElement::Publish(p) => (was && u != pub_uri(p)) || (u == pub_uri(p) && c == pub_content(p)),
         PublishDeltaElement::Update(p) => (was && u != upd_uri(p)) || (u == upd_uri(p) && c == upd_content(p)),
         PublishDeltaElement::Withdraw(p) => was && u != wdr_uri(p),
     }
